@@ -5,7 +5,7 @@ NICKS3 = ['zz', 'mm', 'aa']   # lowest nick identifier is declared last
 
 def cfg(n, T, D, F=0, faults=(), so='LIST,TIMEOUT', fence=False, inact=2, strategy=None, core=None,
         requests=(), rules=False, late=(), K=12, cost=1, full=False, R=None, crashable=None, name=None,
-        restart_after=0, conc=None, stallable=None, warm=0, slow_start=False):
+        restart_after=0, conc=None, stallable=None, warm=0, slow_start=False, prejoin=0):
     options = {'synchro_options': so, 'auto_fence': 'true' if fence else 'false', 'inactivity_ticks': str(inact),
                'synchro_timeout': '15'}
     if strategy:
@@ -14,7 +14,8 @@ def cfg(n, T, D, F=0, faults=(), so='LIST,TIMEOUT', fence=False, inact=2, strate
         options['conciliation_strategy'] = conc
     c = {'n': n, 'T': T, 'D': D, 'F': F, 'faults': list(faults), 'options': options, 'nicks': NICKS3[:n] if n == 3 else ['zz', 'aa'],
          'core': list(core or []), 'requests': list(requests), 'rules': bool(rules), 'late': list(late), 'K': K,
-         'cost': cost, 'full': full, 'restart_after': restart_after, 'warm': warm, 'slow_start': slow_start}
+         'cost': cost, 'full': full, 'restart_after': restart_after, 'warm': warm, 'slow_start': slow_start,
+         'prejoin': prejoin}
     if R is not None:
         c['R'] = R
     if crashable is not None:
@@ -24,7 +25,7 @@ def cfg(n, T, D, F=0, faults=(), so='LIST,TIMEOUT', fence=False, inact=2, strate
     c['name'] = name or f'n{n}-{"warm" + str(warm) + "-" if warm else ""}T{T}-D{D}-F{F}-{"+".join(faults) or "nofault"}-{so}' + \
         (f'-{strategy}' if strategy else '') + ('-fence' if fence else '') + (f'-I{inact}' if inact != 2 else '') + \
         (f'-core{"".join(core)}' if core else '') + (f'-req{"+".join(requests)}' if requests else '') + \
-        ('-rules' if rules else '') + ('-slowstart' if slow_start else '') + (f'-late{"".join(map(str, late))}' if late else '')
+        ('-rules' if rules else '') + ('-slowstart' if slow_start else '') + (f'-late{"".join(map(str, late))}' if late else '') + (f'-prejoin{prejoin}' if prejoin else '')
     return c
 
 
